@@ -129,6 +129,9 @@ def h_equals(ctx: Ctx) -> None:
     ctx.rule(H3, 'nested equals calls compare the same component of both operands and forward every option the '
              'callee accepts, by the same name, unmodified', floor=9)
     ctx.rule(H4, 'equals returns True early only under id(other) == id(self)', floor=7)
+    H6 = 'H6.two-sided-memo'
+    ctx.rule(H6, 'a set/dict local of an equals method that is consulted with `in` to skip a comparison is keyed on an expression rooted in both '
+             'self and other', floor=1)
 
     for cname in EQUALS_CLASSES:
         k = prog.cls(cname)
@@ -181,6 +184,23 @@ def h_equals(ctx: Ctx) -> None:
         for n in walk_local(f.node):
             if isinstance(n, ast.Assign) and isinstance(n.value, ast.Compare):
                 _check_compare(ctx, H2, f, n.value, loc)
+
+        # ---- H6: a memo that lets a comparison be skipped is keyed on both operands
+        for n in walk_local(f.node):
+            if isinstance(n, ast.Compare) and len(n.ops) == 1 and isinstance(n.ops[0], (ast.In, ast.NotIn)) and isinstance(n.comparators[0], ast.Name):
+                cont = n.comparators[0].id
+                is_memo = any((isinstance(dv, ast.Call) and call_name(dv) in ('set', 'dict')) or isinstance(dv, (ast.Set, ast.Dict))
+                              for dv in loc.defs.get(cont, []))
+                if not is_memo:
+                    continue
+                ks = loc.sides(n.left)
+                if len(ks) == 2:
+                    ctx.ok(H6, f, n, f'memo `{cont}` is keyed on both operands ({norm(n.left)})', key=f'memo:{cont}')
+                elif len(ks) == 1:
+                    ctx.bad(H6, f, n, f'memo `{cont}` is keyed on {sorted(ks)} only: an equality established against one partner is reused for a '
+                            'different partner, so equals can answer True for unequal operands (and a.equals(b) != b.equals(a))', key=f'memo:{cont}')
+                else:
+                    ctx.unk(H6, f, n, f'cannot root the memo key `{norm(n.left)}`', key=f'memo:{cont}')
 
         # ---- H3
         for n in walk_local(f.node):
